@@ -21,7 +21,7 @@ Definition s_next (d : sysdef) : state -> list (label * state) :=
 (* the reachable states of a system: the least set containing s_init, closed under s_next *)
 Definition sreach (d : sysdef) : state -> Prop := reachable (s_init d) (s_next d).
 
-Definition BIGFUEL : nat := N.to_nat 4000000.
+Definition BIGFUEL : nat := N.to_nat 300000.
 
 Definition scheck (d : sysdef) (inv : state -> bool) : bool :=
   check state_beq key (s_init d) (s_next d) BIGFUEL inv.
@@ -117,6 +117,17 @@ Definition inv_no_early (st : state) : bool :=
       passed.  Evaluated on the successors of a state. *)
 Definition inv_no_early_strong (st : state) : bool :=
   all_threads (fun t s =>
+    forallb (fun x : thread * shared * nat =>
+               negb (done_with RTimeout (fst (fst x))) ||
+               match dl_of t (snd (fst x)) with DFuture => false | _ => true end)
+            (results t s)) st.
+
+(* -- the B11 race is the ONLY way to a timeout before the stored deadline: whenever a call can
+      return a timeout while the stored deadline is still in the future, a wake-up is pending
+      for it at that moment (the select had both ready and picked the timer) *)
+Definition inv_no_early_quiet (st : state) : bool :=
+  all_threads (fun t s =>
+    wake_pending t s ||
     forallb (fun x : thread * shared * nat =>
                negb (done_with RTimeout (fst (fst x))) ||
                match dl_of t (snd (fst x)) with DFuture => false | _ => true end)
@@ -337,8 +348,42 @@ Definition sys_set_zero_set (prog : proc -> list stmt) (c : caller) (async : boo
         [st_with (match c with Reader => sh_rd DFuture | Writer => sh_wd DFuture | Accepter => set_lrd DFuture sh0 end)
                  [fn_of c]].
 
+(* n identical callers parked with a deadline that is then replaced by a later one *)
+Definition sys_extend_n (prog : proc -> list stmt) (c : caller) (n : nat) (async : bool) : sysdef :=
+  match c with
+  | Writer => mkSys async 1 prog false ([LSetWD DFuture; LTick WD] ++ env_timer n)
+                    [st_with (sh_wd DFuture) (rep n FWriteBuffers)]
+  | _ => mkSys async 1 prog false ([LSetRD DFuture; LTick RD] ++ env_timer n)
+               [st_with (sh_rd DFuture) (rep n FRead)]
+  end.
+
 (* n identical callers on one session / listener *)
 Definition sys_n (prog : proc -> list stmt) (c : caller) (n : nat) (async : bool) : sysdef :=
   mkSys async 3 prog false
         (match c with Reader => env_read_n n | Writer => env_write_n n | Accepter => env_accept_n n end)
         [st0 (rep n (fn_of c))].
+
+(* ------------------------------------------------------------------ the invariant bundles *)
+Definition close_fn (c : caller) : proc := match c with Accepter => FLClose | _ => FClose end.
+
+(* per-call safety, thread-modular *)
+Definition tm_inv (d : sysdef) : state -> bool :=
+  inv_and [inv_ok; inv_no_early; inv_close_wakes d; inv_error_wakes d; inv_data_first d;
+           inv_write_after_close].
+(* one caller of a kind, closed system *)
+Definition one_inv (c : caller) (d : sysdef) : state -> bool :=
+  inv_and ([inv_ok; inv_single d; inv_read_drains; inv_write_after_close; inv_second_close d (close_fn c);
+            inv_close_wakes d; inv_error_wakes d]
+           ++ match c with Accepter => [] | _ => [inv_cleared d; inv_no_early_quiet d] end).
+Definition oned_inv (d : sysdef) : state -> bool := inv_and [inv_ok; inv_single d; inv_cleared d].
+Definition rearm_inv (d : sysdef) : state -> bool :=
+  inv_and [inv_ok; inv_deadline_seen d; inv_expiry_wakes d].
+(* products *)
+Definition n_inv (c : caller) (d : sysdef) : state -> bool :=
+  inv_and ([inv_ok; inv_close_wakes d; inv_error_wakes d]
+           ++ match c with Reader => [] | Writer => [inv_multi_writer d] | Accepter => [inv_multi d] end).
+(* what the repaired Read / WriteBuffers satisfy in the closed one-caller system *)
+Definition fixed_one_inv (c : caller) (d : sysdef) : state -> bool :=
+  inv_and [one_inv c d; inv_deadline_seen d; inv_expiry_wakes d].
+Definition fixed_n_inv (d : sysdef) : state -> bool :=
+  inv_and [inv_ok; inv_close_wakes d; inv_error_wakes d; inv_multi d].
